@@ -15,7 +15,7 @@ LEVEL = 'exploration'
 RULE = ('full product: N in {2,3} (quick) / {2,3,4,5} states with non-degenerate energies and generic fixed overlaps; T in '
         '{8,10,12} (quick) / {8,12,16,24}; t0 = 1..T/3; every state; method {eigh, cholesky}; sort {Eigenvalue, Eigenvector '
         '(every admissible ts), None (every ts)}; vector_obs on/off (on: deviation-bounded to N<=3, T<=10); variants {exact '
-        'symmetric, non-symmetric input (on all timeslices / only from t=2 on / with the first or later timeslices undefined), one / two undefined timeslices, level crossing (non-exponential state weights; for N>=3 also a cyclic re-ordering of three states)}; '
+        'symmetric, non-symmetric input (on all timeslices / only from t=2 on / with the first or later timeslices undefined / of overall magnitude 1e-12), one / two undefined timeslices, level crossing (non-exponential state weights; for N>=3 also a cyclic re-ordering of three states)}; '
         'Corr.Eigenvalue projected correlator against exp(-E_n (t-t0)); prune to every Ntrunc < N (exact energies; projection formula v_i^T G v_j on non-symmetric targets and with undefined timeslices); matrix pencil for k=1..3 '
         'exponentials x every admissible p x single / two data sets.  Non-trivial = every case (each checks the eigen-equation '
         'on every t > t0)')
@@ -79,7 +79,7 @@ def make_corr(pe, N, T, key, weights=None, antisym=0.0, undefined=(), antisym_fr
         anti = {}
         for i in range(N):
             for j in range(i + 1, N):
-                anti[(i, j)] = antisym * (1 + 0.1 * t) * (1 + 0.01 * r.normal(size=ncfg))
+                anti[(i, j)] = scale * antisym * (1 + 0.1 * t) * (1 + 0.01 * r.normal(size=ncfg))
         for i in range(N):
             for j in range(N):
                 x = samples[:, i, j].copy()
@@ -114,7 +114,7 @@ def build(tier, seed):
     Ts = (8, 10, 12) if tier == 'quick' else (8, 12, 16, 24)
     for N in Ns:
         for T in Ts:
-            for variant in ('exact', 'nonsym', 'nonsym-late', 'nonsym-undef0', 'nonsym-undef-mid', 'undef1', 'undef2', 'crossing', 'crossing-large', 'crossing-small') + (('crossing3',) if N >= 3 else ()):
+            for variant in ('exact', 'nonsym', 'nonsym-late', 'nonsym-undef0', 'nonsym-undef-mid', 'nonsym-tiny', 'undef1', 'undef2', 'crossing', 'crossing-large', 'crossing-small') + (('crossing3',) if N >= 3 else ()):
                 cases.append({'kind': 'gevp', 'N': N, 'T': T, 'variant': variant})
         for T in Ts[:2]:
             cases.append({'kind': 'prune', 'N': N, 'T': T})
@@ -164,7 +164,7 @@ def run_gevp(pe, acc, case):
     undefined = {'undef1': (T // 2,), 'undef2': (2, T - 2), 'nonsym-undef0': (0,), 'nonsym-undef-mid': (T // 2, T - 1)}.get(variant, ())
     weights = crossing_weights if variant.startswith('crossing') and variant != 'crossing3' else crossing3_weights if variant == 'crossing3' else None
     C = make_corr(pe, N, T, variant, weights=weights, antisym=(0.003 if variant.startswith('nonsym') else 0.0), undefined=undefined,
-                  antisym_from=(2 if variant == 'nonsym-late' else 0), scale={'crossing-large': 1.0e6, 'crossing-small': 1.0e-6}.get(variant, 1.0))     # 'late': symmetric on the first timeslices, non-symmetric afterwards
+                  antisym_from=(2 if variant == 'nonsym-late' else 0), scale={'crossing-large': 1.0e6, 'crossing-small': 1.0e-6, 'nonsym-tiny': 1.0e-12}.get(variant, 1.0))     # 'late': symmetric on the first timeslices, non-symmetric afterwards
     G = {t: mean_matrix(C, t) for t in range(T) if t not in undefined}
     for t0 in range(1, T // 3 + 1):
         if t0 in undefined:
